@@ -448,6 +448,16 @@ func checkC04(c *core.Ctx) {
 		traces = append(traces, &Trace{Events: run.Events, Class: "random", Name: fmt.Sprintf("random#%d", i),
 			Scenario: map[string]any{"scenario": sc, "seed": c.Seed*977 + int64(i)}})
 	}
+	// ungated: real goroutines, thousands of futures
+	nStress := core.Pick(c, 20000, 200000)
+	st, _, err := runPipeStress(c.Seed, nStress, 3)
+	if err != nil {
+		c.Broken("pipe stress: %v", err)
+		return
+	}
+	c.Add("evaluations", int64(nStress))
+	c.Set("parallel_pipe_stress_futures", nStress)
+	traces = append(traces, st...)
 	res := ValidateTraces(c, "future", "AskMon", "AskMon.cfg", traces, askDefaults)
 	res.Report(c, "AskMon")
 	c.Add("traces_validated_against_impl", int64(res.Validated))
